@@ -323,6 +323,8 @@ props["C11"] = {
         run("file", "VxC11FileWrite", {}, {}),
         run("file", "VxC11Retention", {}, {}),
         run("root", "VxC10Restore", {}, {}, note="restore output: renamed only after flush and close (shared with C10)"),
+        run("root", "VxC11SyncResetSync", {}, {}, note="sync, run-time reset of the local state, sync: the directory that exists now is the one flushed"),
+        run("root", "VxC11RestoreFollow", {}, {}, note="follow-mode restore: database flushed before it is renamed, sidecar published after"),
     ],
     "unreached_ok": ["existing-output-refused-and-untouched", "damaged-replica-is-an-error", "damaged-replica-leaves-no-output", "success-means-correct-database", "temp-file-gone", "integrity-check-ran", "output-on-error-is-complete"],
     "assumptions": [
